@@ -90,6 +90,11 @@ func numJ(f float64) J {
 	if math.IsInf(f, 0) {
 		return J{"k": "inf", "neg": f < 0}
 	}
+	for _, t := range []int{1, 2, 4, -1, -2, -4} {
+		if f == float64(t)*1e-9 {
+			return J{"k": "tau", "t": t}
+		}
+	}
 	bf := new(big.Float).SetPrec(200).SetFloat64(f)
 	sc := new(big.Float).SetPrec(200).SetMantExp(bf, 32) // f * 2^32
 	if sc.IsInt() {
@@ -163,6 +168,8 @@ func numFromJ(j J) float64 {
 			panic(fmt.Sprintf("big number record %v: canonical rendering is %v", j, back["r"]))
 		}
 		return f
+	case "tau":
+		return float64(toInt(j["t"])) * 1e-9
 	case "inf":
 		if boolv(j["neg"]) {
 			return math.Inf(-1)
